@@ -28,6 +28,7 @@ import (
 type schedAPI struct {
 	begin func(pick func(enabled []int, cur int) int, maxSteps int)
 	spawn func(name string, f func())
+	daemon func(name string, f func())
 	run   func() ([]string, []int, string)
 	point func(kind string, val int)
 	note  func(kind string, val int)
@@ -36,11 +37,11 @@ type schedAPI struct {
 func schedOf(v int) schedAPI {
 	switch v {
 	case 1:
-		return schedAPI{sq1.VerifSchedBegin, sq1.VerifSchedGo, sq1.VerifSchedRun, sq1.VerifSchedPoint, sq1.VerifSchedNote}
+		return schedAPI{sq1.VerifSchedBegin, sq1.VerifSchedGo, sq1.VerifSchedGoDaemon, sq1.VerifSchedRun, sq1.VerifSchedPoint, sq1.VerifSchedNote}
 	case 2:
-		return schedAPI{sq2.VerifSchedBegin, sq2.VerifSchedGo, sq2.VerifSchedRun, sq2.VerifSchedPoint, sq2.VerifSchedNote}
+		return schedAPI{sq2.VerifSchedBegin, sq2.VerifSchedGo, sq2.VerifSchedGoDaemon, sq2.VerifSchedRun, sq2.VerifSchedPoint, sq2.VerifSchedNote}
 	}
-	return schedAPI{sq3.VerifSchedBegin, sq3.VerifSchedGo, sq3.VerifSchedRun, sq3.VerifSchedPoint, sq3.VerifSchedNote}
+	return schedAPI{sq3.VerifSchedBegin, sq3.VerifSchedGo, sq3.VerifSchedGoDaemon, sq3.VerifSchedRun, sq3.VerifSchedPoint, sq3.VerifSchedNote}
 }
 
 type schedOutcome struct {
@@ -70,6 +71,10 @@ func iterYields(mode, pos int) bool {
 
 // runSched runs the programs as tasks of version v's controlled scheduler under pick.
 func runSched(v int, desc string, progs []string, pick func(enabled []int, cur int) int, iterMode int, traced bool) (out schedOutcome) {
+	return runSchedBudget(v, desc, progs, pick, iterMode, traced, 60000)
+}
+
+func runSchedBudget(v int, desc string, progs []string, pick func(enabled []int, cur int) int, iterMode int, traced bool, budget int) (out schedOutcome) {
 	api := schedOf(v)
 	wrapped := func(enabled []int, cur int) int {
 		id := pick(enabled, cur)
@@ -77,7 +82,7 @@ func runSched(v int, desc string, progs []string, pick func(enabled []int, cur i
 		out.curAt = append(out.curAt, cur)
 		return id
 	}
-	api.begin(wrapped, 60000)
+	api.begin(wrapped, budget)
 	separate := strings.HasPrefix(desc, "X")
 	d := strings.TrimPrefix(desc, "X")
 	env, err := newScriptNumber(v, d)
@@ -99,7 +104,14 @@ func runSched(v int, desc string, progs []string, pick func(enabled []int, cur i
 	out.results = make([]string, len(progs))
 	for i, p := range progs {
 		i, p := i, p
-		api.spawn(fmt.Sprintf("c%d", i), func() {
+		spawn := api.spawn
+		if strings.HasPrefix(p, "~") {
+			// a call that need not finish (unbounded or very distant demand): the run ends when
+			// the other programs are done, and they must get done whatever this one is doing
+			spawn = api.daemon
+			p = p[1:]
+		}
+		spawn(fmt.Sprintf("c%d", i), func() {
 			local := &scriptEnv{v: env.v, handles: []handle{env.handles[0]}, src: env.src, shared: true}
 			if separate {
 				if own, e2 := newScriptNumber(v, d); e2 == "" {
@@ -315,7 +327,7 @@ func emitSched(e *emitter, kind string, v int, desc string, progs []string, o sc
 	if len(o.schedule) > e.dist["C05sched.longest_run_in_scheduling_decisions"] {
 		e.dist["C05sched.longest_run_in_scheduling_decisions"] = len(o.schedule)
 	}
-	if o.status == "overrun" || strings.HasPrefix(o.status, "stuck") {
+	if o.status == "overrun" || strings.HasPrefix(o.status, "stuck") || strings.HasPrefix(o.status, "starved") {
 		// a run that does not come to rest within the step budget (the model bounds the length of
 		// every run: all_calls_return) or a task spinning without reaching a scheduling point:
 		// counted like a hang, so that a tree on which every run does this is reported quickly
@@ -362,6 +374,9 @@ func genC05sched(e *emitter, r *rng, tier string) {
 		// a request at the top of the int range on a finite source: the block count must be clamped
 		{"G:3:1:0", []string{"at:0:9223372036854775806", "at:0:2"}, 0, 2},
 		{"G:100:1:0", []string{"at:0:9223372036854775807;at:0:99", "at:0:100"}, 0, 2},
+		// readers asking far ahead at the same time: the read-ahead must not add up
+		{"G:-1:1:0", []string{"at:0:2500", "at:0:2500"}, 0, 1},
+		{"G:-1:1:0", []string{"at:0:1800", "at:0:1200", "at:0:1800"}, 0, 1},
 	}
 	maxRuns := 1500
 	if thorough {
@@ -402,7 +417,7 @@ func genC05sched(e *emitter, r *rng, tier string) {
 	if thorough {
 		n = 2500
 	}
-	positions := []int{0, 1, 50, 99, 100, 101, 150, 199, 200, 201, 299, 300, 301, 450}
+	positions := []int{0, 1, 50, 99, 100, 101, 150, 199, 200, 201, 299, 300, 301, 450, 1500, 2500}
 	for i := 0; i < n; i++ {
 		length := r.pick([]int{-1, -1, 1, 99, 100, 101, 200, 250, 300})
 		desc := fmt.Sprintf("G:%d:1:0", length)
@@ -429,6 +444,31 @@ func genC05sched(e *emitter, r *rng, tier string) {
 			emitSched(e, "strace", v, desc, progs, o)
 		}
 		e.count(fmt.Sprintf("C05sched.random.strategy%d", strat))
+	}
+	// (b2) a call that never finishes by contract (v1/v2 NumDigits / Reverse on an infinite Number)
+	// or that is very far out, running while other readers ask for nearer positions: every one of
+	// those must return. Uniform random schedules only (a priority scheduler is not fair).
+	nd := 12
+	if thorough {
+		nd = 150
+	}
+	for i := 0; i < nd; i++ {
+		near := atProgs(r, 1+r.intn(2), 2, []int{0, 50, 99, 100, 150, 250, 301})
+		seed := r.next()
+		iterMode := r.intn(2)
+		for v := 1; v <= 3; v++ {
+			if e.exhausted() {
+				return
+			}
+			far := "~at:0:4000000"
+			if v != 3 {
+				far = r.pickS([]string{"~nd:0", "~back:0:1", "~at:0:4000000", "~fl:0:1_2"})
+			}
+			progs := append([]string{far}, near...)
+			o := runSchedBudget(v, "G:-1:1:0", progs, pickRandom(&rng{s: seed}, 0), iterMode, false, 6000)
+			emitSched(e, "sconc", v, "G:-1:1:0", progs, o)
+		}
+		e.count("C05sched.unbounded_background_demand")
 	}
 	// (c) arbitrary scripts under random schedules
 	m := 60
